@@ -709,6 +709,18 @@ class SList(Sym):
     def reverse(self):
         self.v = self.v.reversed()
 
+    def pop(self, i=-1):
+        ti = as_int_term(i)
+        p = paths.current()
+        n = self.v.n
+        p.require(z3.And(ti >= -n, ti < n), "safe.index", exc="IndexError")
+        ti = z3.If(ti >= 0, ti, ti + n)
+        x = self.v.at(ti)
+        j = z3.Int(fresh_name("j"))
+        a = z3.Lambda([j], z3.If(j < ti, select(self.v.a, j), select(self.v.a, j + 1)))
+        self.v = SSeq(z3.simplify(n - 1), a, self.v.kind, list)
+        return x
+
     def copy(self):
         return SList(self.v)
 
